@@ -13,7 +13,8 @@ CHECK = {'title': 'External commands cannot hang or crash fan2go',
          'shell, background grandchild keeping stdout / only stderr open for 60 s with the parent exiting 0 / exiting 1 / sleeping, detached '
          'grandchild, output empty / non-numeric / 1 MiB on stdout / 1 MiB on stderr, plus the benign command) through the real '
          'util.SafeCmdExecution with timeouts 0.2, 0.5 and 2 s, and through the real CmdFan.GetPwm, CmdFan.GetRpm, CmdFan.SetPwm and '
-         'CmdSensor.GetValue (2 s fixed by fan2go). Each (failure mode, timeout or call site) pair is one evaluation; '
+         'CmdSensor.GetValue (2 s fixed by fan2go); additionally, for 7 getRpm failure modes, three goroutines inside CmdFan.GetRpm while a fourth '
+         'calls GetRpm / GetPwm / SetPwm / GetRpmAvg / SetRpmAvg on the same CmdFan, every call judged on its own clock. Each (failure mode, timeout or call site) pair is one evaluation; '
          'distinct_nontrivial counts these pairs (enumerated once each).',
  'assumptions': ['real wall clock of the sandbox: a call counts as late only beyond timeout + 3 s; the defects this separates block for 60 s or crash',
                  '/bin/sh, sleep, head, tr of the sandbox behave as on a normal Linux system'],
